@@ -37,8 +37,7 @@ TRUSTED = ['gen_periodic translator (imports chython.periodictable from /repo, p
            'Spec/Iupac.lean (118 symbols written by hand from the standard table)']
 ASSUMPTIONS = ['property bodies of Element subclasses do not depend on instance state (evaluated with self=None)',
                'tabulated float literals have at most 6 decimals (emitted as micro-units)',
-               'the matcher theorems fix hybridization 1 / no rings (one-atom molecule); hydrogen, neighbour and heteroatom fields are '
-               'proved on the neutral unlabelled atom and exercised, not proved, in combination with the other fields']
+               'the matcher theorems fix hybridization 1 / no rings (one-atom molecule)']
 
 _state = {}
 
